@@ -72,10 +72,12 @@ def _validate(trace):
 
 
 def _judge(v, msgs, what):
+    """FAIL/DEV first (a violation must not be masked); a TOOL message (the code could not be driven
+    the way the model's schedule says, or the trace is inconsistent) without any FAIL is a tool error."""
+    n_fail = lib.judge_trace(v, msgs, {"C27"})
     tool = [m for m in msgs if m.get("kind") == "TOOL"]
-    if tool:
-        raise lib.ToolError(f"{what}: harness/spec inconsistency: {json.dumps(tool[0])[:600]}")
-    lib.judge_trace(v, msgs, {"C27"})
+    if tool and not n_fail and not v.violations:
+        raise lib.ToolError(f"{what}: {len(tool)} harness/spec inconsistencies, first: {json.dumps(tool[0])[:600]}")
 
 
 def _run_trace(v, binary, tag, args):
@@ -116,12 +118,12 @@ def run_c27(v):
         "bug_manifest_before_segments": dict(task="fifo", idb="creation", bug="manifest_before_segments"),
         "bug_coalesce_drops_newest": dict(task="fifo", idb="creation", bug="coalesce_drops_newest"),
         "fix_any_any": dict(task="any", idb="any", fix="manifest_barrier", nseg=1 if quick else 2),
-        # the whole as-built any/any state space (TLC stops at the first counterexample otherwise):
-        # the invariants that do not depend on the manifest/segment order must hold everywhere
-        "any_any_full_space": dict(task="any", idb="any",
-                                   invs=["TypeOK", "NoStuck", "EventuallyAllPresent", "ReloadIsSomeCommit"]),
     }
     if not quick:
+        # the whole as-built any/any state space (TLC stops at the first counterexample otherwise):
+        # the invariants that do not depend on the manifest/segment order must hold everywhere
+        jobs["any_any_full_space"] = dict(task="any", idb="any",
+                                          invs=["TypeOK", "NoStuck", "EventuallyAllPresent", "ReloadIsSomeCommit"])
         jobs["fix_any_any_3seg"] = dict(task="any", idb="any", fix="manifest_barrier", nseg=3, commits=1)
         jobs["fifo_creation_5seg"] = dict(task="fifo", idb="creation", nseg=5)
     with cf.ThreadPoolExecutor(max_workers=5 if quick else 4) as ex:
